@@ -35,6 +35,30 @@ pub fn decomp_prefix(c: Compression, data: &[u8]) -> (Vec<u8>, bool) {
         }
     }
 }
+/// number of trailing bytes the synchronous encoder emits only when dropped (after flush() returned)
+pub fn drop_tail(c: Compression, data: &[u8]) -> usize {
+    struct Count(std::rc::Rc<std::cell::Cell<usize>>);
+    impl Write for Count {
+        fn write(&mut self, b: &[u8]) -> std::io::Result<usize> {
+            self.0.set(self.0.get() + b.len());
+            Ok(b.len())
+        }
+        fn flush(&mut self) -> std::io::Result<()> {
+            Ok(())
+        }
+    }
+    let n = std::rc::Rc::new(std::cell::Cell::new(0usize));
+    let mut sink = Count(n.clone());
+    let before_drop;
+    {
+        let Ok(mut w) = util::compress(c, &mut sink) else { return 0 };
+        if w.write_all(data).is_err() || w.flush().is_err() {
+            return 0;
+        }
+        before_drop = n.get();
+    }
+    n.get() - before_drop
+}
 /// "err" | "nonobj" | "obj <canonical hex>"
 pub fn json_parse(b: &[u8]) -> String {
     match serde_json::from_slice::<serde_json::Value>(b) {
@@ -63,6 +87,7 @@ pub fn answer(line: &str) -> String {
             format!("{} {}", hex_bytes(&p), u8::from(clean))
         }
         ["json", b] => json_parse(&unhex_bytes(b)),
+        ["tail", c, b] => format!("{:x}", drop_tail(parse_comp(c), &unhex_bytes(b))),
         _ => "bad-query".into(),
     }
 }
